@@ -1,5 +1,5 @@
 """Property -> rules mapping (what bin/check <id> runs) with the explanation / assumptions written into the evidence."""
-from .rules import attrs, cfg, conv, dbg, det, errsel, fmtdec, fmtoracle, fmtparse, gendet, hdr, hyg, idx, ops, optrules, panics, rawid, shape, split, state
+from .rules import attrs, cfg, conv, dbg, det, errsel, fmtdec, fmtoracle, fmtparse, gendet, hdr, hyg, idx, ops, optrules, panics, rawid, reject, shape, split, state
 
 PROPS = {}
 
@@ -18,7 +18,7 @@ def prop(pid, quick, thorough=(), level="other", explanation="", assumptions=(),
 
 prop(
     "C01",
-    [hdr.rule_tpl_hdr, hdr.rule_tpl_lint, hdr.rule_tpl_selfassoc, rawid.rule_raw_id, shape.rule_tpl_prec, fmtdec.rule_traversal, fmtdec.rule_guard_use, fmtdec.rule_shared_decision, gendet.rule_generics_search, gendet.rule_type_param_used],
+    [hdr.rule_tpl_hdr, hdr.rule_tpl_lint, hdr.rule_tpl_selfassoc, rawid.rule_raw_id, shape.rule_tpl_prec, fmtdec.rule_traversal, fmtdec.rule_guard_use, fmtdec.rule_shared_decision, gendet.rule_generics_search, gendet.rule_type_param_used, reject.rule_reject_ledger],
     explanation="Structural necessary conditions of 'every supported input expands to code that compiles warning-free': the 27 generated impl headers and every TypeGenerics splice "
     "(interpolations typed by rustc through the MIR binding join, identifier provenance by def-use), lint attributes on impls that name user variants, no Self::<Assoc> in enum-capable expanders, raw identifiers, "
     "spliced user expressions.",
@@ -61,7 +61,7 @@ prop(
 
 prop(
     "C05",
-    [fmtdec.rule_dec_cover, fmtdec.rule_transparent_call, fmtdec.rule_transparent_siblings, split.rule_split_table],
+    [fmtdec.rule_dec_cover, fmtdec.rule_transparent_call, fmtdec.rule_transparent_siblings, split.rule_split_table, fmtparse.rule_peg_combinators, fmtparse.rule_single_placeholder],
     explanation="FmtAttribute::transparent_call is the decision function for flag pass-through: every FormatSpec field must veto transparency, exactly one placeholder, the positional index must denote the single argument, "
     "and each site emitting an attribute body must ask it first and fall back to write! unconditionally. Argument counting depends on the argument scanner (C16 findings are repeated here).",
     assumptions=["format_args!/write! ignore the outer formatter's flags (Rust semantics)", NOT_DECIDED_VALUES],
@@ -69,7 +69,7 @@ prop(
 
 prop(
     "C06",
-    [dbg.rule_builder_shape, dbg.rule_debug_tuple_sibling, rawid.rule_raw_id, fmtdec.rule_binder_align, state.rule_iteration_state],
+    [dbg.rule_builder_shape, dbg.rule_debug_tuple_sibling, rawid.rule_raw_id, fmtdec.rule_binder_align, state.rule_iteration_state, idx.rule_enumerate_positions],
     explanation="Without attributes generate_body must drive std's own builders like #[derive(Debug)] does (shape rules), names are rendered un-raw (RAW-ID over rustc-resolved Ident->text conversions), and the crate's copy of "
     "core::fmt::DebugTuple must have the same effect skeleton as the toolchain's core/src/fmt/builders.rs (sibling comparison, method by method).",
     assumptions=["std's #[derive(Debug)] expands to debug_struct/debug_tuple/write_str calls with un-raw names (rustc's builtin derive)", NOT_DECIDED_VALUES],
@@ -85,7 +85,7 @@ prop(
 
 prop(
     "C08",
-    [conv.rule_merge_symmetry, conv.rule_from_table, conv.rule_field_order],
+    [conv.rule_merge_symmetry, conv.rule_from_table, conv.rule_field_order, conv.rule_validate_arity, conv.rule_into_impl_set, idx.rule_enumerate_positions],
     explanation="Field order and the impl set are decided in a few places: expand_fields/(i, field) pairing and the per-field templates (exactly one From::from), the `match (attrs, skip_variant)` table with a complete first pass for "
     "has_explicit_from, Into's (index, field, skip) triples and reference-kind table, Constructor's single field list, and the field-by-field symmetry of attribute merging.",
     assumptions=[NOT_DECIDED_VALUES, "coherence of the generated impls with user impls is rustc's business"],
@@ -132,7 +132,7 @@ prop(
 
 prop(
     "C14",
-    [shape.rule_delegation, errsel.rule_view_defs, idx.rule_idx_space, gendet.rule_generics_search],
+    [shape.rule_delegation, errsel.rule_view_defs, idx.rule_idx_space, idx.rule_enumerate_positions, gendet.rule_generics_search],
     explanation="Delegating derives use element 0 of the enabled views (VIEW-DEF keeps positional names original), direct forms `&[mut] self.member`, forwarded forms through one cast with projected associated types, "
     "RefType tables pairwise consistent, AsRef kind decision and the autoref-specialisation levels of src/as.rs vs. the call site.",
     assumptions=["autoref-based specialisation: method probing prefers the receiver with fewer auto-refs (language semantics)", NOT_DECIDED_VALUES],
@@ -140,7 +140,7 @@ prop(
 
 prop(
     "C15",
-    [hyg.rule_tpl_hyg, hyg.rule_tpl_meth, hyg.rule_tpl_export, cfg.rule_cfg_export],
+    [hyg.rule_tpl_hyg, hyg.rule_tpl_meth, hyg.rule_tpl_assoc, hyg.rule_tpl_export, cfg.rule_cfg_export],
     explanation="Name resolution of a template token depends only on the token sequence: every path root / macro name / trait-method call of the 247 templates is classified; every derive_more:: path has a backing export "
     "under the features that compile the emitting code.",
     assumptions=[
@@ -159,7 +159,7 @@ prop(
 
 prop(
     "C17",
-    [attrs.rule_legacy_attr_parser, attrs.rule_typed_attrs, attrs.rule_attr_positions, conv.rule_merge_symmetry, optrules.rule_option_flow],
+    [attrs.rule_legacy_attr_parser, attrs.rule_typed_attrs, attrs.rule_attr_positions, conv.rule_merge_symmetry, optrules.rule_option_flow, reject.rule_reject_ledger],
     explanation="Attribute totality: the untyped parser's checks dominate every successful return, its name matches end in rejecting arms, slots are written once; typed attributes reject repetition unless merging is documented "
     "(merge overrides enumerated, symmetric), synonyms are accepted alike and not branched on, legacy syntax is detected on every path, positional conflicts raise their diagnostics.",
     assumptions=["NOT decided: token-equality of expansions for synonymous inputs (follows from the parsers producing the same value; not proved), diagnostics' wording"],
